@@ -116,7 +116,7 @@ func runAtomic(a *args, res *result) {
 		var initial any
 		switch start {
 		case "live":
-			initial = val{K: key, ID: 100}
+			initial = mkVal(key, 100)
 			if method != "compute" {
 				initial = nextVal(key)
 			}
@@ -167,7 +167,7 @@ func runAtomic(a *args, res *result) {
 						if loaded {
 							id = old.(val).ID
 						}
-						return val{K: key, ID: id + 1}, false
+						return mkVal(key, id+1), false
 					})
 				case "refresh":
 					o.v, o.loaded = t.refresh(key)
@@ -327,7 +327,7 @@ func runAtomic(a *args, res *result) {
 					bad("Compute hands a non-zero old value with loaded=false", fmt.Sprintf("racer %d saw (%s,false)", w, fmtVal(o.old)))
 				}
 				olds[id]++
-				if !o.loaded || o.v != (val{K: key, ID: maxi64(id, 100) + 1}) {
+				if !o.loaded || o.v != mkVal(key, maxi64(id, 100)+1) {
 					bad("Compute returns something else than the value it stored", fmt.Sprintf("racer %d saw old id %d, got (%s,%v)", w, id, fmtVal(o.v), o.loaded))
 				}
 			}
@@ -342,7 +342,7 @@ func runAtomic(a *args, res *result) {
 					break
 				}
 			}
-			if !finalOK || final != (val{K: key, ID: 100 + int64(k)}) {
+			if !finalOK || final != mkVal(key, 100+int64(k)) {
 				bad("concurrent Compute increments: wrong final value", fmt.Sprintf("final (%s,%v), want id %d", fmtVal(final), finalOK, 100+k))
 			}
 		case "refresh":
